@@ -49,6 +49,9 @@ type Node struct {
 	Retries  int      `json:"retries,omitempty"`
 	Sub      *Graph   `json:"sub,omitempty"`
 	Events   []EventDef `json:"events,omitempty"`
+	// (start events) event definitions that only the document carries: the start event is triggered explicitly
+	// all the same, so the reference model treats it as a plain start event
+	StartDefs []EventDef `json:"startDefs,omitempty"`
 	Parallel bool     `json:"parallel,omitempty"` // parallelMultiple
 	Relaxed  bool     `json:"relaxed,omitempty"`  // the model takes this catch event's firings from the engine's own LeaveTrace (the property only bounds them)
 	Attached string   `json:"attached,omitempty"` // boundary: host activity
@@ -291,7 +294,7 @@ func (g *Graph) emitBody(b *strings.Builder, ind string) {
 		for _, f := range n.Out {
 			fmt.Fprintf(b, "%s  <bpmn:outgoing>%s</bpmn:outgoing>\n", ind, f)
 		}
-		for i, e := range n.Events {
+		for i, e := range append(append([]EventDef{}, n.Events...), n.StartDefs...) {
 			switch e.Kind {
 			case "signal":
 				fmt.Fprintf(b, "%s  <bpmn:signalEventDefinition id=\"%s_ed%d\" signalRef=\"%s\"/>\n", ind, n.ID, i, e.Ref)
